@@ -668,3 +668,87 @@ example : (match convert [kv "version" (.int 20), kv "type" (.str "tcp".toUTF8.t
     | _ => false) = true := by decide +kernel
 
 end MitmVerif.Props.C36
+
+-- ------------------------------------------------------------------------------------------------
+-- cross-audit (round 6): the hypotheses of the reader theorems hold together on concrete files
+-- ------------------------------------------------------------------------------------------------
+namespace MitmVerif.Props.C36
+open MitmVerif MitmVerif.C36
+
+private def envA : Env Nat := ⟨1000, 10, fun i _ => .ok i, fun _ => ([], true)⟩
+private def recHttp : Value := .dict [kv "version" (.int 21), kv "type" (.str "http".toUTF8.toList)]
+private def recFuture : Value := .dict [kv "version" (.int 99)]
+private def recTcpBare : Value := .dict [kv "type" (.str "tcp".toUTF8.toList), kv "version" (.int 21)]
+private def recOld : Value := .dict [kv "version" (.int 20)]
+
+-- `Good` for a two-record file (a nested record and the empty dict); read_roundtrip and corrupted_tail_keeps_flows on it
+example : readAll envA (encList [sample, .dict []]) = ([0, 1], .clean) ∧
+    [0, 1] <+: (readAll envA (encList [sample, .dict []] ++ [0x39, 0x39, 0x3a, 0x78])).1 := by
+  have hg : Good envA 0 [sample, .dict []] [0, 1] := by
+    simp only [Good, envA, isDict, sample, and_true]
+    refine ⟨⟨?_, ?_, ?_, ?_⟩, ?_, ?_, ?_⟩
+    · simp [WF, WFPairs, WFList, hashable, utf8Valid, maxStrDigits]; decide +kernel
+    · decide +kernel
+    · decide +kernel
+    · decide +kernel
+    · simp [WF, WFPairs]
+    · decide +kernel
+    · decide +kernel
+  exact ⟨read_roundtrip envA _ _ hg, corrupted_tail_keeps_flows envA _ _ hg _⟩
+
+-- rejected_record_stops_reader with a NON-EMPTY good prefix: a current-version http record passes the gate, a version-99 record stops the read
+example : readAll (gated envA) (encList [recHttp] ++ (enc recFuture ++ [0x78])) = ([0], .flowRead) := by
+  have hg : Good (gated envA) 0 [recHttp] [0] := by
+    simp only [Good, and_true]
+    refine ⟨?_, ?_, ?_, ?_, ?_, ?_⟩
+    · simp [recHttp, kv, WF, WFPairs, hashable, utf8Valid, maxStrDigits]; decide +kernel
+    · decide +kernel
+    · decide +kernel
+    · decide +kernel
+    · decide +kernel
+    · have hgate : gate (mirror recHttp) = .pass "http".toUTF8.toList := by decide +kernel
+      simp [gated, hgate, envA]
+  refine rejected_record_stops_reader envA [recHttp] [0] hg recFuture [0x78] ?_ (by decide +kernel) (by decide +kernel)
+    (by decide +kernel) (by decide +kernel) (Or.inl (by decide +kernel))
+  simp [recFuture, kv, WF, WFPairs, hashable, utf8Valid, maxStrDigits]; decide +kernel
+
+-- illshaped_record_stops_reader / unconvertible_record_stops_reader (good prefix empty: a shape-good record needs a whole flow state)
+example : readAll (shaped envA) (encList [] ++ (enc recTcpBare ++ [0x78])) = ([], .flowRead) := by
+  refine illshaped_record_stops_reader envA (by intro i v h; cases h) [] [] trivial recTcpBare [0x78] ?_ (by decide +kernel)
+    (by decide +kernel) (by decide +kernel) (by decide +kernel) (sb "tcp")
+    [kv "version" (.int 21), kv "type" (.str "tcp".toUTF8.toList)] rfl (by decide +kernel) (by decide +kernel)
+  simp [recTcpBare, kv, WF, WFPairs, hashable, utf8Valid, maxStrDigits]; decide +kernel
+
+example : readAll (converted envA) (encList [] ++ (enc recOld ++ [0x78])) = ([], .flowRead) := by
+  refine unconvertible_record_stops_reader envA [] [] trivial recOld [0x78] ?_ (by decide +kernel) (by decide +kernel)
+    (by decide +kernel) (by decide +kernel) [kv "version" (.int 20)] rfl (by decide +kernel) (by decide +kernel)
+  simp [recOld, kv, WF, WFPairs, hashable, utf8Valid, maxStrDigits]; decide +kernel
+
+end MitmVerif.Props.C36
+
+-- a COMPLETE current-version tcp record (every key `set_state` pops, connection states with exactly their field names,
+-- no error, no messages): it passes the gate with a good shape, so `accepted_record_is_wellshaped` is met in its main
+-- branch, and it serves as a NON-EMPTY good prefix for `illshaped_record_stops_reader`
+namespace MitmVerif.Props.C36
+open MitmVerif MitmVerif.C36
+
+private def nullDict (keys : List Bytes) : Value := .dict (keys.map (fun k => (Value.str k, Value.null)))
+private def tcpFull : List (Value × Value) :=
+  ((Gen.C36.typeKeys.find? (·.1 == sb "tcp")).map (·.2) |>.getD []).map (fun k =>
+    (Value.str k,
+      if k == sb "version" then Value.int 21
+      else if k == sb "type" then Value.str (sb "tcp")
+      else if k == sb "client_conn" then nullDict Gen.C36.clientKeys
+      else if k == sb "server_conn" then nullDict Gen.C36.serverKeys
+      else if k == sb "messages" then Value.list []
+      else Value.null))
+
+example : gate (.dict tcpFull) = .pass (sb "tcp") ∧ shape (sb "tcp") tcpFull = .good := by decide +kernel
+
+example : Acceptable (.dict tcpFull) := by
+  have hg : gate (.dict tcpFull) = .pass (sb "tcp") := by decide +kernel
+  have hs : shape (sb "tcp") tcpFull = .good := by decide +kernel
+  have hne : ¬ (shape (sb "tcp") tcpFull = .bad) := by rw [hs]; decide
+  exact accepted_record_is_wellshaped envA 0 (.dict tcpFull) 0 (by simp [shaped, hg, hne, envA])
+
+end MitmVerif.Props.C36
